@@ -210,6 +210,9 @@ def impl(c):
         call(lambda: PI.loadTimeSeriesData(fn, c["undef"]))
         with io.open(fn, "w", encoding="utf-8", newline="") as fd:
             fd.write(listing_text(c))
+        # ... and the listing itself has just been loaded with ANOTHER undefinedValue (round 4, C20-mutH: a cache keyed by
+        # path and file signature that forgets the argument)
+        call(lambda: PI.loadTimeSeriesData(fn, 0.5 if c["undef"] is None else None))
         try:
             return call(lambda: [list(row) for row in PI.loadTimeSeriesData(fn, c["undef"])])
         finally:
